@@ -30,7 +30,7 @@ type C06Case struct {
 	Origin   string `json:"origin,omitempty"`
 }
 
-var soupNames = []string{"a", "b", "x", "y", "i0", "b0", "s0", "li0", "ls0", "a.b", "ünï", "v_1", "n"}
+var soupNames = []string{"a", "b", "x", "y", "i0", "b0", "s0", "li0", "ls0", "a.b", "ünï", "v_1", "n", "abc日", "日本", "ab😀", "größe_é", "日本語"}
 
 var soupVocab = func() []string {
 	v := []string{"(", ")", "(", ")", "(", ")", "[", "]", ",", ",",
